@@ -53,7 +53,7 @@ fn injections(n: usize, m: usize) -> Vec<Vec<usize>> {
 impl C14 {
     pub fn new() -> C14 {
         C14 {
-            quick: Pool::new(887),
+            quick: Pool::new(499),
             thorough: Pool::new(97),
         }
     }
@@ -105,6 +105,12 @@ pub fn extra_templates() -> Vec<(Program, String)> {
     let mut s = vec![label("main"), j("ua"), label("da"), addi(T0, T0, 1), label("da")];
     s.extend(exit());
     v.push((Program { stmts: s }, "duplicate-and-undefined-label".to_string()));
+    // a function that ends in a jump into another called function (a caller-saved register
+    // flows across the jump)
+    let mut s = vec![label("main"), li(A0, 1), call("helper"), li(A7, 1), ecall(), li(A0, 5), call("wrapper"), li(A7, 1), ecall()];
+    s.extend(exit());
+    s.extend([label("wrapper"), addi(A0, A0, 1), j("helper"), label("helper"), inst(Inst::R(ROp::Add, A0, A0, A0)), ret()]);
+    v.push((Program { stmts: s }, "jump-into-a-called-function".to_string()));
     // a shared tail reached from two functions (the first shared instruction is reported)
     let mut s = vec![label("main"), call("fa"), call("fb")];
     s.extend(exit());
@@ -146,14 +152,64 @@ impl Property for C14 {
         let labels = labels_mentioned(&prog);
         let mut variants: Vec<(String, BTreeMap<Reg, Reg>, BTreeMap<String, String>)> = Vec::new();
         // the full orbit of the temporaries the program mentions
-        for a in injections(t_used.len().min(3), TEMPS.len()) {
-            let m: BTreeMap<Reg, Reg> = t_used.iter().take(3).zip(a.iter()).map(|(r, k)| (*r, TEMPS[*k])).collect();
-            variants.push(("temporaries".into(), m, BTreeMap::new()));
+        if t_used.len() <= 2 {
+            for a in injections(t_used.len(), TEMPS.len()) {
+                let m: BTreeMap<Reg, Reg> = t_used.iter().zip(a.iter()).map(|(r, k)| (*r, TEMPS[*k])).collect();
+                variants.push(("temporaries".into(), m, BTreeMap::new()));
+            }
+        } else {
+            let slots: Vec<Reg> = t_used.iter().copied().take(TEMPS.len()).collect();
+            for (si, _) in slots.iter().enumerate() {
+                for target in TEMPS {
+                    let mut free = TEMPS.iter().copied().filter(|r| *r != target);
+                    let m: BTreeMap<Reg, Reg> = slots.iter().enumerate().map(|(i, r)| (*r, if i == si { target } else { free.next().unwrap_or(*r) })).collect();
+                    variants.push(("temporaries".into(), m, BTreeMap::new()));
+                }
+            }
+            for rot in 0..TEMPS.len() {
+                for rev in [false, true] {
+                    let m: BTreeMap<Reg, Reg> = slots
+                        .iter()
+                        .enumerate()
+                        .map(|(i, r)| {
+                            let k = if rev { TEMPS.len() - 1 - i } else { i };
+                            (*r, TEMPS[(k + rot) % TEMPS.len()])
+                        })
+                        .collect();
+                    variants.push(("temporaries".into(), m, BTreeMap::new()));
+                }
+            }
         }
         // the full orbit of the saved registers the program mentions
-        for a in injections(s_used.len().min(3), SAVEDS.len()) {
-            let m: BTreeMap<Reg, Reg> = s_used.iter().take(3).zip(a.iter()).map(|(r, k)| (*r, SAVEDS[*k])).collect();
-            variants.push(("saved".into(), m, BTreeMap::new()));
+        if s_used.len() <= 2 {
+            for a in injections(s_used.len(), SAVEDS.len()) {
+                let m: BTreeMap<Reg, Reg> = s_used.iter().zip(a.iter()).map(|(r, k)| (*r, SAVEDS[*k])).collect();
+                variants.push(("saved".into(), m, BTreeMap::new()));
+            }
+        } else {
+            // three or more saved registers: every single substitution (each slot takes each
+            // register of the class, the others take the following free ones) and every rotation
+            let slots: Vec<Reg> = s_used.iter().copied().take(SAVEDS.len()).collect();
+            for (si, _) in slots.iter().enumerate() {
+                for target in SAVEDS {
+                    let mut free = SAVEDS.iter().copied().filter(|r| *r != target);
+                    let m: BTreeMap<Reg, Reg> = slots.iter().enumerate().map(|(i, r)| (*r, if i == si { target } else { free.next().unwrap_or(*r) })).collect();
+                    variants.push(("saved".into(), m, BTreeMap::new()));
+                }
+            }
+            for rot in 0..SAVEDS.len() {
+                for rev in [false, true] {
+                    let m: BTreeMap<Reg, Reg> = slots
+                        .iter()
+                        .enumerate()
+                        .map(|(i, r)| {
+                            let k = if rev { SAVEDS.len() - 1 - i } else { i };
+                            (*r, SAVEDS[(k + rot) % SAVEDS.len()])
+                        })
+                        .collect();
+                    variants.push(("saved".into(), m, BTreeMap::new()));
+                }
+            }
         }
         // labels: every injective renaming for <= 2 labels; for more labels every single
         // substitution (each label takes each pool name while the others keep a fixed other
@@ -165,7 +221,8 @@ impl Property for C14 {
             }
         } else if labels.len() <= LABEL_POOL.len() {
             for (li, l) in labels.iter().enumerate() {
-                for name in LABEL_POOL {
+                // one name per shape: short, long, leading underscore(s), capital + digit, last in order
+                for name in ["f", "aVeryLongLabelName_0123456789", "_x", "__init", "X9z", "zzzz"] {
                     // the other labels take pool names in order, skipping `name`
                     let mut others = LABEL_POOL.iter().filter(|n| **n != name);
                     let m: BTreeMap<String, String> = labels
@@ -266,7 +323,7 @@ impl Property for C14 {
     }
     fn info(&self, tier: Tier) -> Info {
         Info {
-            rule: "templates = program pool (every 887th / 97th member of the quick S family, clean and with each injected violation); for each template the full orbit of the temporaries it mentions (every injective assignment of up to 3 t-slots to t0-t6: up to 210), the full orbit of its saved registers (up to 3 s-slots to s0-s11: up to 1320), and label renamings from a pool of 12 identifiers differing in length, case, digits, leading underscores and sort order (all injective maps for <= 2 labels; otherwise every single substitution - each label takes each pool name - plus 24 rotations/reflections): the diagnostics of the renamed program, positions compared by (statement index, operand role) and registers mapped back, must equal the template's. Non-trivial = templates that draw at least one diagnostic".into(),
+            rule: "templates = program pool (every 499th / 97th member of the quick S family, clean and with each injected violation); for each template the orbit of the temporaries it mentions (every injective assignment for <= 2 t-slots; for more, every single substitution plus 14 rotations/reflections), the orbit of its saved registers (every injective assignment for <= 2 s-slots: 132; for more, every single substitution - each slot takes each of s0-s11 - plus 24 rotations/reflections), and label renamings from a pool of 12 identifiers differing in length, case, digits, leading underscores and sort order (all injective maps for <= 2 labels; otherwise every single substitution - each label takes one name of each shape (6) - plus 24 rotations/reflections): the diagnostics of the renamed program, positions compared by (statement index, operand role) and registers mapped back, must equal the template's. Non-trivial = templates that draw at least one diagnostic".into(),
             bounds: json!({"templates": self.pool(tier).count(), "t_class": 7, "s_class": 12, "label_pool": LABEL_POOL}),
             assumptions: vec!["canonical hash-order schedule; dependence on label hash order is C10's subject".into()],
             states_counter: "templates",
